@@ -274,7 +274,9 @@ pub fn run(ctx: &RunCtx) -> Outcome {
     if quick {
         // the largest trees on a four-letter alphabet, the smaller ones on the full text set
         let (small, large): (Vec<Node>, Vec<Node>) = pats.into_iter().partition(|x| x.size() <= 3);
-        if !stage(ctx, &mut o, &plain, "common syntax N<=3", &small, &texts) {
+        let mut texts_cr = texts.clone();
+        texts_cr.extend(gen::cr_texts());
+        if !stage(ctx, &mut o, &plain, "common syntax N<=3", &small, &texts_cr) {
             return o;
         }
         let t4 = gen::texts(&['a', 'b', 'é', '\n'], 3);
